@@ -288,7 +288,7 @@ structure Fixes where
 def unrepaired : Fixes := ⟨false, false, false, false, false, false⟩
 def allFixed : Fixes := ⟨true, true, true, true, true, true⟩
 /-- the code the driver runs: flip when the fixes are applied to /repo -/
-def current : Fixes := unrepaired
+def current : Fixes := allFixed
 
 structure Cfg where
   slack : Bool := true
